@@ -913,3 +913,138 @@ CONTROLS['C19'] = [
     B('c19-benign-pattern-equivalent', SC, '_RC_TRAIT_CHAR = "[A-Z0-9_]"',
       '_RC_TRAIT_CHAR = "[0-9A-Z_]"'),
 ]
+
+RCX = O + 'research_context.py'
+CONTROLS['C20'] = [
+    M('c20-slice-one-more', RCX,
+      "                alloc_request_objs = alloc_request_objs[:self._limit]",
+      "                alloc_request_objs = alloc_request_objs[:self._limit + 1]",
+      'R20.1'),
+    M('c20-slice-from-one', RCX,
+      "                alloc_request_objs = alloc_request_objs[:self._limit]",
+      "                alloc_request_objs = alloc_request_objs[1:self._limit + 1]",
+      'R20.1'),
+    M('c20-sample-other-list', RCX,
+      "                alloc_request_objs = random.sample(\n                    alloc_request_objs, self._limit)",
+      "                alloc_request_objs = random.choices(\n                    alloc_request_objs, k=self._limit)",
+      'R20.'),
+    M('c20-limit-le', RCX,
+      "        if self._limit and self._limit < len(alloc_request_objs):",
+      "        if self._limit and self._limit <= len(alloc_request_objs) + 1:",
+      'R20.1'),
+    M('c20-shuffle-unconditional', RCX,
+      "        elif self._ctx.config.placement.randomize_allocation_candidates:\n            random.shuffle(alloc_request_objs)",
+      "        else:\n            random.shuffle(alloc_request_objs)", 'R20.2'),
+    M('c20-sample-unconditional', RCX,
+      "            if self._ctx.config.placement.randomize_allocation_candidates:\n                alloc_request_objs = random.sample(",
+      "            if self._limit > 1:\n                alloc_request_objs = random.sample(",
+      'R20.2'),
+    M('c20-limit-before-exclude', O + 'allocation_candidate.py',
+      "        alloc_request_objs, summary_objs = rw_ctx.exclude_nested_providers(\n"
+      "            alloc_request_objs, summary_objs)\n\n"
+      "        return rw_ctx.limit_results(alloc_request_objs, summary_objs)",
+      "        alloc_request_objs, summary_objs = rw_ctx.limit_results(\n"
+      "            alloc_request_objs, summary_objs)\n\n"
+      "        return rw_ctx.exclude_nested_providers(alloc_request_objs, summary_objs)",
+      'R20.3'),
+    M('c20-dup-after-limit', RCX,
+      "        return alloc_request_objs, summary_objs\n\n    def copy_arr_if_needed",
+      "        alloc_request_objs.extend(alloc_request_objs[:1])\n"
+      "        return alloc_request_objs, summary_objs\n\n    def copy_arr_if_needed",
+      'R20.1'),
+    M('c20-summaries-break', RCX,
+      "                if rp_root_uuid not in alloc_req_root_uuids:\n                    continue\n",
+      "                if rp_root_uuid not in alloc_req_root_uuids:\n                    break\n",
+      'R20.4'),
+    M('c20-summaries-from-unlimited', RCX,
+      "            if self._ctx.config.placement.randomize_allocation_candidates:\n"
+      "                alloc_request_objs = random.sample(\n"
+      "                    alloc_request_objs, self._limit)\n"
+      "            else:\n"
+      "                alloc_request_objs = alloc_request_objs[:self._limit]\n"
+      "            # Limit summaries to only those mentioned in the allocation reqs.\n"
+      "            kept_summary_objs = []\n"
+      "            alloc_req_root_uuids = set()\n",
+      "            kept_summary_objs = []\n"
+      "            alloc_req_root_uuids = set()\n"
+      "            if self._ctx.config.placement.randomize_allocation_candidates:\n"
+      "                alloc_request_objs = random.sample(\n"
+      "                    alloc_request_objs, self._limit)\n"
+      "            else:\n"
+      "                alloc_request_objs = alloc_request_objs[:self._limit]\n",
+      None),
+    M('c20-roots-first-request-only', RCX,
+      "            for aro in alloc_request_objs:\n                for arr in aro.resource_requests:\n                    alloc_req_root_uuids.add(",
+      "            for aro in alloc_request_objs:\n                for arr in aro.resource_requests[:1]:\n                    alloc_req_root_uuids.add(",
+      'R20.4'),
+    B('c20-benign-guard-order', RCX,
+      "        if self._limit and self._limit < len(alloc_request_objs):",
+      "        if self._limit and len(alloc_request_objs) > self._limit:"),
+]
+for _c in CONTROLS['C20']:
+    if _c['id'] == 'c20-summaries-from-unlimited':
+        _c['benign'] = True
+        _c.pop('expect', None)
+
+CONTROLS['C17'] = [
+    M('c17-retry-inside-writer', OA,
+      "@oslo_db_api.wrap_db_retry(max_retries=5, retry_on_deadlock=True)\n"
+      "@db_api.placement_context_manager.writer\ndef _set_allocations(context, allocs):",
+      "@db_api.placement_context_manager.writer\n"
+      "@oslo_db_api.wrap_db_retry(max_retries=5, retry_on_deadlock=True)\n"
+      "def _set_allocations(context, allocs):", 'R17.1'),
+    M('c17-no-deadlock-retry', OA,
+      "@oslo_db_api.wrap_db_retry(max_retries=5, retry_on_deadlock=True)\n"
+      "@db_api.placement_context_manager.writer\ndef _set_allocations(context, allocs):",
+      "@oslo_db_api.wrap_db_retry(max_retries=5, retry_on_deadlock=False)\n"
+      "@db_api.placement_context_manager.writer\ndef _set_allocations(context, allocs):",
+      'R17.1'),
+    M('c17-sync-not-retried', OT,
+      "@oslo_db_api.wrap_db_retry(max_retries=5, retry_on_deadlock=True)\n"
+      "# Bug #1760322: If the caller raises an exception, we don't want the trait\n",
+      "# Bug #1760322: If the caller raises an exception, we don't want the trait\n",
+      'R17.1'),
+    M('c17-aggregate-checker-wrong', RP,
+      "    exception_checker=lambda exc: isinstance(exc, db_exc.DBDuplicateEntry))",
+      "    exception_checker=lambda exc: isinstance(exc, db_exc.DBDeadlock))",
+      'R17.1'),
+    M('c17-ensure-aggregate-swallows', RP,
+      "        with excutils.save_and_reraise_exception():\n"
+      "            LOG.debug(\"_ensure_provider() failed to create new aggregate %s. \"",
+      "        if True:\n"
+      "            LOG.debug(\"_ensure_provider() failed to create new aggregate %s. \"",
+      'R17.'),
+    M('c17-retry-extra-function', RP,
+      "@db_api.placement_context_manager.writer\ndef _set_inventory(context, rp, inv_list):",
+      "@oslo_db_api.wrap_db_retry(max_retries=5, retry_on_deadlock=True)\n"
+      "@db_api.placement_context_manager.writer\ndef _set_inventory(context, rp, inv_list):",
+      'R17.1'),
+    M('c17-swallow-in-closure', HA,
+      "        except Exception:\n            with excutils.save_and_reraise_exception():\n"
+      "                if created_new_consumer:\n                    delete_consumers([consumer])",
+      "        except Exception:\n            if created_new_consumer:\n"
+      "                delete_consumers([consumer])", 'R17.2'),
+    M('c17-db-error-dropped', RP,
+      "        except sqla_exc.IntegrityError:\n"
+      "            # NOTE(jaypipes): Another thread snuck in and deleted the parent\n"
+      "            # for this resource provider in between the above check for a valid\n"
+      "            # parent provider and here...\n"
+      "            raise exception.ObjectActionError(\n"
+      "                action='update',\n"
+      "                reason='parent provider UUID does not exist.')",
+      "        except sqla_exc.IntegrityError:\n"
+      "            LOG.warning('parent vanished')", 'R17.'),
+    M('c17-faultwrapper-not-innermost', 'placement/deploy.py',
+      "    for middleware in (fault_middleware,\n                       context_middleware,",
+      "    for middleware in (context_middleware,\n                       fault_middleware,",
+      'R17.3'),
+    M('c17-faultwrapper-narrow', 'placement/fault_wrap.py',
+      "        except Exception as unexpected_exception:",
+      "        except ValueError as unexpected_exception:", 'R17.3'),
+    M('c17-faultwrapper-plain-text', 'placement/fault_wrap.py',
+      "            formatted_exception.json_formatter = util.json_error_formatter\n",
+      "", 'R17.3'),
+    reuse('C04', 'c04-raw-write-in-handler', 'c17-unscoped-write', 'R17.4'),
+    reuse('C04', 'c04-swallow-in-object-layer', 'c17-swallow-in-tx', 'R17.4'),
+    reuse('C04', 'c04-benign-rename-closure', 'c17-benign-rename', None),
+]
